@@ -166,6 +166,12 @@ pub fn bfs(spec: &BfsSpec) -> BfsResult {
                             continue;
                         }
                     };
+                    if let Ok(w) = std::env::var("VERIF_BFS_WATCH") {
+                        let watch: Vec<usize> = w.split(',').filter_map(|x| x.trim().parse().ok()).collect();
+                        if watch.starts_with(&h) {
+                            eprintln!("WATCH {:?} status={} stop={} new={} key={}", h, rep.status, rep.stop, !seen.contains(&rep.key), rep.key.chars().take(200).collect::<String>());
+                        }
+                    }
                     if rep.status == "disabled" {
                         res.disabled += 1;
                         continue;
